@@ -27,7 +27,11 @@ class SimpleCookieJar:
 
     def add(self, set_cookie: Optional[str]) -> None:
         if set_cookie:
-            simple_cookie = http.cookies.SimpleCookie(set_cookie)
+            try:
+                simple_cookie = http.cookies.SimpleCookie(set_cookie)
+            except http.cookies.CookieError:
+                # a cookie the standard library refuses to parse is not kept
+                return
 
             for v in simple_cookie.values():
                 if domain := v.get("domain"):
